@@ -280,7 +280,8 @@ func (idx *MemoryIndex) genOffsetHash() error {
 	for firstLevel, fanoutValue := range idx.Fanout {
 		mappedFirstLevel := idx.FanoutMapping[firstLevel]
 		for secondLevel := uint32(0); i < fanoutValue; i++ {
-			_, err = hash.Write(idx.Names[mappedFirstLevel][secondLevel*uint32(idx.idSize()):])
+			nameStart := secondLevel * uint32(idx.idSize())
+			_, err = hash.Write(idx.Names[mappedFirstLevel][nameStart : nameStart+uint32(idx.idSize())])
 			if err != nil {
 				return fmt.Errorf("cannot write name to hash: %w", err)
 			}
@@ -428,7 +429,8 @@ func (i *idxfileEntryIter) Next() (*Entry, error) {
 		mappedFirstLevel := i.idx.FanoutMapping[i.firstLevel]
 		entry := new(Entry)
 		entry.Hash.ResetBySize(i.idx.idSize())
-		_, err := entry.Hash.Write(i.idx.Names[mappedFirstLevel][i.secondLevel*i.idx.idSize():])
+		nameStart := i.secondLevel * i.idx.idSize()
+		_, err := entry.Hash.Write(i.idx.Names[mappedFirstLevel][nameStart : nameStart+i.idx.idSize()])
 		if err != nil {
 			return nil, fmt.Errorf("cannot write entry hash: %w", err)
 		}
